@@ -40,6 +40,9 @@ SetOnP(st, p, x, v) ==
   IF v = Bad THEN Out(st, "TraitError", <<>>)
   ELSE Out([st EXCEPT !.val[p][Target(x)] = v], "",
            IF st.par = p /\ Linked(st, x) /\ st.val[p][Target(x)] # v THEN <<v>> ELSE <<>>)
+\* assignment on a STRANGER: an object that is not a candidate delegate of D's attributes as D's class declares them (the
+\* delegate named by a base-class declaration that the class of D overrides): D neither changes nor hears of it
+SetOnStranger(st, x, v) == Out(st, IF v = Bad THEN "TraitError" ELSE "", <<>>)
 \* deleting the local value of a prototyped attribute restores the link; deleting a DelegatesTo attribute is
 \* forwarded to the delegate, whose attribute reverts to its default (whether the deletion itself notifies is open)
 DefaultOnP == 1
